@@ -560,7 +560,8 @@ func loopName(ls *LoopSpec, pos string) string {
 }
 
 // runLoop is the common loop-cutting scheme.
-//   head(st)  -> called after havoc+invariant assumption; returns (condition, body-prologue)
+//
+//	head(st)  -> called after havoc+invariant assumption; returns (condition, body-prologue)
 func (f *Frame) runLoop(st *State, s ast.Stmt, label string, bodyNodes []ast.Node,
 	special func(st *State) map[string]Term,
 	autoInv func(st *State) Term,
